@@ -22,11 +22,14 @@ SumSeq(s) == SumRange(s, 1, Len(s))
 AddrAdd(a, d) == LET lo == a[2] + d IN <<(a[1] + lo \div 65536) % 65536, lo % 65536>>           \* d >= 0
 Rel(a, base) == LET dh == a[1] - base[1] IN IF dh > 16000 \/ dh < 0 - 16000 THEN Far ELSE dh * 65536 + a[2] - base[2]
 \* `n` data bytes rb[from], rb[from+1], ... stored at consecutive addresses starting at a0; an address written twice is malformed
-Store(st, a0, rb, from, n, base) ==
-  LET r0 == Rel(a0, base) IN
+StoreAt(st, r0, rb, from, n) ==
   IF r0 = Far \/ (\E i \in r0..(r0 + n - 1) : i \in DOMAIN st.mem) THEN [st EXCEPT !.ok = FALSE]
-  ELSE [st EXCEPT !.mem = [i \in r0..(r0 + n - 1) |-> rb[from + i - r0]] @@ st.mem, !.ndata = @ + 1]
-St0 == [ok |-> TRUE, mem |-> EmptyMem, ub |-> <<0, 0>>, seg |-> FALSE, start |-> NoAddr, eof |-> FALSE, ndata |-> 0]
+  ELSE IF n = 0 THEN [st EXCEPT !.ndata = @ + 1]
+  ELSE [st EXCEPT !.mem = [i \in r0..(r0 + n - 1) |-> rb[from + i - r0]] @@ st.mem, !.ndata = @ + 1,
+                  !.lo = IF r0 < @ THEN r0 ELSE @, !.hi = IF r0 + n - 1 > @ THEN r0 + n - 1 ELSE @]
+Store(st, a0, rb, from, n, base) == StoreAt(st, Rel(a0, base), rb, from, n)
+St0 == [ok |-> TRUE, mem |-> EmptyMem, ub |-> <<0, 0>>, seg |-> FALSE, start |-> NoAddr, eof |-> FALSE, ndata |-> 0,
+        lo |-> Far, hi |-> 0 - Far]                                  \* lowest / highest address seen (relative to base)
 Bad(st) == [st EXCEPT !.ok = FALSE]
 
 HexRec(st, rb, base) ==
@@ -63,9 +66,10 @@ RECURSIVE Fold(_, _, _, _, _)
 Fold(fmt, recs, i, st, base) ==
   IF i > Len(recs) \/ ~st.ok THEN st
   ELSE Fold(fmt, recs, i + 1, IF fmt = "HEX" THEN HexRec(st, recs[i].b, base) ELSE SrecRec(st, recs[i].t, recs[i].b, base), base)
-\* the decoded file: [ok, mem, start]
+Final(fmt, st) == [ok |-> st.ok /\ (fmt = "HEX" => st.eof), mem |-> st.mem, start |-> st.start, lo |-> st.lo, hi |-> st.hi]
+\* the decoded file: [ok, mem, start, lo, hi]
 Decode(fmt, recs, base) ==
-  IF fmt = "BIN" THEN [ok |-> Len(recs) = 1, mem |-> IF Len(recs) = 1 THEN [i \in 0..(Len(recs[1].b) - 1) |-> recs[1].b[i + 1]] ELSE EmptyMem, start |-> NoAddr]
-  ELSE LET st == Fold(fmt, recs, 1, St0, base) IN
-       [ok |-> st.ok /\ (fmt = "HEX" => st.eof), mem |-> st.mem, start |-> st.start]
+  IF fmt = "BIN" THEN [ok |-> Len(recs) = 1, mem |-> IF Len(recs) = 1 THEN [i \in 0..(Len(recs[1].b) - 1) |-> recs[1].b[i + 1]] ELSE EmptyMem, start |-> NoAddr,
+                       lo |-> 0, hi |-> IF Len(recs) = 1 THEN Len(recs[1].b) - 1 ELSE 0 - 1]
+  ELSE Final(fmt, Fold(fmt, recs, 1, St0, base))
 =============================================================================
